@@ -84,10 +84,6 @@ def parseEntry (observed : Bool) (s : String) : Option (Path × File) :=
 
 def parseDir (observed : Bool) (s : String) : Option Dir := (splitList "|" s).mapM (parseEntry observed)
 
-def keysDistinct : Dir → Bool
-  | [] => true
-  | (p, _) :: r => !(Dir.has r p) && keysDistinct r
-
 def parseKill (s : String) : Option (Option Nat) :=
   if s == "-" then some none else s.toNat?.map some
 
@@ -148,7 +144,7 @@ def handle (line : String) : String :=
   | ["merge", dst, names, dir0, faults, kill] =>
     match parseDir false dir0, natList? faults, parseKill kill with
     | some d0, some fl, some k =>
-      if !keysDistinct d0 then badCase "dir0 keys" else
+      if !d0.wf then badCase "dir0 keys" else
       let ns := splitList "," names
       let model := outcome (mergePlan false d0 ns dst) d0 fl k
       verdict (.merge ns dst) d0 model impl
@@ -156,7 +152,7 @@ def handle (line : String) : String :=
   | ["explode", input, simple, dir0, ro, co, faults, kill] =>
     match parseDir false dir0, natList? faults, parseKill kill, parseSimple simple with
     | some d0, some fl, some k, some sm =>
-      if !keysDistinct d0 then badCase "dir0 keys" else
+      if !d0.wf then badCase "dir0 keys" else
       let model := outcome (explodePlan false d0 input (lookupSimple sm) (splitList "," ro) (splitList "," co)) d0 fl k
       verdict (.explode input (lookupSimple sm)) d0 model impl
     | _, _, _, _ => badCase "explode fields"
